@@ -60,6 +60,10 @@ func DecodeSgpdSR(hdr BoxHeader, startPos uint64, sr bits.SliceReader) (Box, err
 		if err != nil {
 			return nil, err
 		}
+		if sgEntry.Size() != uint64(descriptionLength) {
+			return nil, fmt.Errorf("sgpd: %s entry size %d differs from description length %d",
+				b.GroupingType, sgEntry.Size(), descriptionLength)
+		}
 		b.SampleGroupEntries = append(b.SampleGroupEntries, sgEntry)
 	}
 
